@@ -6,6 +6,7 @@ for spec in "$@"; do
     *c) base=${id%c}; wt=/tmp/wt3_$base;;
     *d) base=${id%d}; wt=/tmp/wt4_$base;;
     *e) base=${id%e}; wt=/tmp/wt5_$base;;
+    *f) base=${id%f}; wt=/tmp/wt6_$base;;
   esac
   bash /verif/tools/confirm_seeded.sh $id $wt $tests
 done
